@@ -309,7 +309,11 @@ impl Dependencies for Function {
     }
 
     fn dependencies(&self) -> Vec<Dependency> {
-        self.body.net_dependencies()
+        self.body
+            .net_dependencies()
+            .into_iter()
+            .map(Dependency::cross_function)
+            .collect()
     }
 }
 
